@@ -176,6 +176,8 @@ func (r *MetricRegistry) RegisterDistribution(
 	}
 
 	// only add once
+	r.mu.Lock()
+	defer r.mu.Unlock()
 	if l, ok := r.registeredListeners[ID]; ok {
 		return l
 	}
@@ -199,6 +201,8 @@ func (r *MetricRegistry) RegisterTiming(
 	}
 
 	// only add once
+	r.mu.Lock()
+	defer r.mu.Unlock()
 	if l, ok := r.registeredListeners[ID]; ok {
 		return l
 	}
@@ -222,6 +226,8 @@ func (r *MetricRegistry) RegisterCount(
 	}
 
 	// only add once
+	r.mu.Lock()
+	defer r.mu.Unlock()
 	if l, ok := r.registeredListeners[ID]; ok {
 		return l
 	}
